@@ -37,6 +37,9 @@ inductive Cls where
   | execute | permit | block | failure | other
   deriving Repr, DecidableEq
 
+def allCls : List Cls := [.execute, .permit, .block, .failure, .other]
+def allGates : List Gate := [.and, .or, .majority, .unanimous, .execPrio, .assessPrio]
+
 def classify (s : String) : Cls :=
   if s = "EXECUTE" then .execute
   else if s = "PERMIT" then .permit
